@@ -1,57 +1,157 @@
 (* C18 — metadata queries select tables by the documented scoring order.  Statements only.
-   kur/ucs2/ucs4 are the ids of the key "unicode-range" and its two values.               *)
+   kur/ucs2/ucs4 are the ids of the key "unicode-range" and its two values; islang tells which
+   key ids are language keys ("language", "region").  A value is a list of subtag ids: [id] for
+   a plain string, the parsed tag for a language key (id 0 = "*", ids 1..63 = one-character
+   subtags, ids >= 64 = longer subtags), see Model/Meta.v.                                   *)
 From Coq Require Import List ZArith NArith Bool Permutation.
 From Lou Require Import Gen.GMeta Model.Meta Proofs.MetaProofs.
 Import ListNotations.
 Local Open Scope Z_scope.
 
 (* lou_findTable returns NULL exactly when lou_findTables returns no table *)
-Theorem find_none_iff : forall kur ucs2 ucs4 index q,
-  find_table kur ucs2 ucs4 index q = None <-> find_tables kur ucs2 ucs4 index q = [].
+Theorem find_none_iff : forall kur ucs2 ucs4 islang index q,
+  find_table kur ucs2 ucs4 islang index q = None <-> find_tables kur ucs2 ucs4 islang index q = [].
 Proof. exact MetaProofs.find_none_iff_l. Qed.
 Print Assumptions find_none_iff.
 
 (* ... and otherwise one of the tables lou_findTables lists *)
-Theorem find_in_findTables : forall kur ucs2 ucs4 index q n,
-  find_table kur ucs2 ucs4 index q = Some n -> In n (find_tables kur ucs2 ucs4 index q).
+Theorem find_in_findTables : forall kur ucs2 ucs4 islang index q n,
+  find_table kur ucs2 ucs4 islang index q = Some n -> In n (find_tables kur ucs2 ucs4 islang index q).
 Proof. exact MetaProofs.find_in_tables_l. Qed.
+Print Assumptions find_in_findTables.
 
 (* lou_findTables lists exactly the tables with a positive score *)
-Theorem findTables_positive : forall kur ucs2 ucs4 index q n,
-  In n (find_tables kur ucs2 ucs4 index q) <->
-  exists f, In (n, f) index /\ score kur ucs2 ucs4 q f > 0.
+Theorem findTables_positive : forall kur ucs2 ucs4 islang index q n,
+  In n (find_tables kur ucs2 ucs4 islang index q) <->
+  exists f, In (n, f) index /\ score kur ucs2 ucs4 islang q f > 0.
 Proof. exact MetaProofs.find_tables_positive_l. Qed.
+Print Assumptions findTables_positive.
 
 (* a table whose metadata equals the query (sorted, one value per key, non-empty) scores
-   10 per feature, hence is always found *)
-Theorem exact_metadata_scores : forall kur ucs2 ucs4 q,
+   10 per feature when no language value starts with the wildcard ... *)
+Theorem exact_metadata_scores : forall kur ucs2 ucs4 islang q,
   strictly_sorted q = true -> q <> [] ->
-  score kur ucs2 ucs4 q q = W_POS_MATCH * Z.of_nat (length q).
+  (forall k v, In (k, v) q -> islang k = true -> no_wild_head v = true) ->
+  score kur ucs2 ucs4 islang q q = W_POS_MATCH * Z.of_nat (length q).
 Proof. exact MetaProofs.exact_score_l. Qed.
+Print Assumptions exact_metadata_scores.
 
-Theorem exact_metadata_found : forall kur ucs2 ucs4 index q n,
-  strictly_sorted q = true -> q <> [] -> In (n, q) index ->
-  find_table kur ucs2 ucs4 index q <> None.
+(* ... and between 8 and 10 per feature in general (a language value "*" scores 8 against
+   itself) ... *)
+Theorem exact_metadata_score_bounds : forall kur ucs2 ucs4 islang q,
+  strictly_sorted q = true -> q <> [] ->
+  (forall k v, In (k, v) q -> islang k = true -> v <> []) ->
+  (L_POS_MATCH + L_EXTRA) * Z.of_nat (length q) <= score kur ucs2 ucs4 islang q q
+    <= W_POS_MATCH * Z.of_nat (length q).
+Proof. exact MetaProofs.exact_score_bound_l. Qed.
+Print Assumptions exact_metadata_score_bounds.
+
+(* ... hence is always found *)
+Theorem exact_metadata_found : forall kur ucs2 ucs4 islang index q n,
+  strictly_sorted q = true -> q <> [] ->
+  (forall k v, In (k, v) q -> islang k = true -> v <> []) ->
+  In (n, q) index ->
+  find_table kur ucs2 ucs4 islang index q <> None.
 Proof. exact MetaProofs.exact_found_l. Qed.
+Print Assumptions exact_metadata_found.
 
-(* for one queried feature: same value > key missing > different value; an unrelated extra
-   field costs less than either *)
-Theorem single_feature_order : forall kur ucs2 ucs4 k v v' k' w,
+(* for one queried plain feature: same value > key missing > different value; an unrelated
+   extra field costs less than either *)
+Theorem single_feature_order : forall kur ucs2 ucs4 islang k v v' k' w,
+  islang k = false ->
   v <> v' -> (k =? kur)%N = false -> k <> k' ->
-  let same := score kur ucs2 ucs4 [(k, v)] [(k, v)] in
-  let missing := score kur ucs2 ucs4 [(k, v)] [] in
-  let different := score kur ucs2 ucs4 [(k, v)] [(k, v')] in
-  let same_plus_extra := score kur ucs2 ucs4 [(k, v)] (if (k <? k')%N then [(k, v); (k', w)] else [(k', w); (k, v)]) in
+  let same := score kur ucs2 ucs4 islang [(k, [v])] [(k, [v])] in
+  let missing := score kur ucs2 ucs4 islang [(k, [v])] [] in
+  let different := score kur ucs2 ucs4 islang [(k, [v])] [(k, [v'])] in
+  let same_plus_extra := score kur ucs2 ucs4 islang [(k, [v])] (if (k <? k')%N then [(k, [v]); (k', w)] else [(k', w); (k, [v])]) in
   same > missing /\ missing > different /\ same - same_plus_extra = 1 /\ same_plus_extra > missing.
 Proof. exact MetaProofs.single_feature_order_l. Qed.
+Print Assumptions single_feature_order.
+
+(* for one queried language feature t = r ++ e (r, d not starting with "*", d starting with
+   another subtag than r, 1 to 4 subtags in e): the same tag scores 10 > a table whose range r
+   is a proper prefix of the tag (two points less per subtag of e) > key missing > a different
+   first subtag; an unrelated extra field costs 1 *)
+Theorem lang_single_feature_order : forall kur ucs2 ucs4 islang k r e d k' w,
+  islang k = true -> no_wild_head r = true -> no_wild_head d = true ->
+  hd 0%N d <> hd 0%N r ->
+  e <> [] -> (length e <= 4)%nat -> k <> k' ->
+  let t := r ++ e in
+  let same := score kur ucs2 ucs4 islang [(k, t)] [(k, t)] in
+  let prefix := score kur ucs2 ucs4 islang [(k, t)] [(k, r)] in
+  let missing := score kur ucs2 ucs4 islang [(k, t)] [] in
+  let different := score kur ucs2 ucs4 islang [(k, t)] [(k, d)] in
+  let same_plus_extra := score kur ucs2 ucs4 islang [(k, t)] (if (k <? k')%N then [(k, t); (k', w)] else [(k', w); (k, t)]) in
+  same = L_POS_MATCH /\
+  prefix = L_POS_MATCH + L_EXTRA * Z.of_nat (length e) /\
+  same > prefix /\ prefix > missing /\ missing > different /\ different = W_NEG_MATCH /\
+  same - same_plus_extra = 1 /\ same_plus_extra > prefix.
+Proof. exact MetaProofs.lang_single_feature_order_l. Qed.
+Print Assumptions lang_single_feature_order.
+
+(* table range r against the query r ++ e, any number of additional subtags: from five on the
+   table is a negative match *)
+Theorem lang_prefix_range_score : forall kur ucs2 ucs4 islang k r e,
+  islang k = true -> no_wild_head r = true ->
+  score kur ucs2 ucs4 islang [(k, r ++ e)] [(k, r)] =
+  if (length e <? 5)%nat then L_POS_MATCH + L_EXTRA * Z.of_nat (length e) else W_NEG_MATCH.
+Proof. exact MetaProofs.lang_prefix_score. Qed.
+Print Assumptions lang_prefix_range_score.
+
+(* the query may be more specific than the table: the subtags of the queried tag s-t' that
+   the table's range s-r' leaves out (anywhere, r' a subsequence of t'; no one-character
+   subtag in t'; at most 4 left out) cost two points each, the table is still listed and a
+   table is found *)
+Theorem lang_more_specific_query_still_matches : forall kur ucs2 ucs4 islang k s t' r' index n,
+  islang k = true -> is_wild s = false ->
+  subseq r' t' = true -> forallb (fun x => negb (single x)) t' = true ->
+  (length t' - length r' <= 4)%nat ->
+  In (n, [(k, s :: r')]) index ->
+  score kur ucs2 ucs4 islang [(k, s :: t')] [(k, s :: r')] =
+    L_POS_MATCH + L_EXTRA * (Z.of_nat (length t') - Z.of_nat (length r')) /\
+  score kur ucs2 ucs4 islang [(k, s :: t')] [(k, s :: r')] > 0 /\
+  In n (find_tables kur ucs2 ucs4 islang index [(k, s :: t')]) /\
+  find_table kur ucs2 ucs4 islang index [(k, s :: t')] <> None.
+Proof. exact MetaProofs.lang_more_specific_l. Qed.
+Print Assumptions lang_more_specific_query_still_matches.
+
+(* not the other way round: a range with more subtags than the queried tag (table en-US,
+   query en) is a negative match, whatever the subtags *)
+Theorem lang_longer_range_does_not_match : forall kur ucs2 ucs4 islang k t r,
+  islang k = true -> (length t < length r)%nat ->
+  score kur ucs2 ucs4 islang [(k, t)] [(k, r)] = W_NEG_MATCH.
+Proof. exact MetaProofs.lang_longer_range_l. Qed.
+Print Assumptions lang_longer_range_does_not_match.
+
+(* a table with the queried tag and n other, non-matching values of the same language key:
+   the penalty is (n * EXTRA + 4) / 5 rounded toward zero, so up to 8 extra languages cost
+   nothing, the 9th costs one point, and never more than one point per 5 *)
+Theorem lang_extra_languages_penalty : forall kur ucs2 ucs4 islang k t pre post,
+  islang k = true -> no_wild_head t = true ->
+  (forall v, In v pre -> match_tags t v = 0) ->
+  (forall v, In v post -> match_tags t v = 0) ->
+  let n := Z.of_nat (length pre + length post) in
+  let s := score kur ucs2 ucs4 islang [(k, t)] (map (pair k) (pre ++ t :: post)) in
+  s = L_POS_MATCH + lang_penalty (n * W_EXTRA) /\
+  (n <= 8 -> s = L_POS_MATCH) /\
+  (n >= 9 -> s < L_POS_MATCH) /\
+  5 * (L_POS_MATCH - s) <= n.
+Proof. exact MetaProofs.lang_extra_languages_l. Qed.
+Print Assumptions lang_extra_languages_penalty.
+
+(* ... the other values not matching e.g. because they start with another subtag *)
+Theorem lang_other_first_subtag_no_match : forall a t' b r',
+  is_wild b = false -> a <> b -> match_tags (a :: t') (b :: r') = 0.
+Proof. exact MetaProofs.match_diff_head. Qed.
+Print Assumptions lang_other_first_subtag_no_match.
 
 (* a table that strictly dominates all others with a positive score is returned whatever the
    order in which tables were indexed *)
-Theorem dominant_wins_any_order : forall kur ucs2 ucs4 index index' q n f,
+Theorem dominant_wins_any_order : forall kur ucs2 ucs4 islang index index' q n f,
   Permutation index index' ->
-  In (n, f) index -> score kur ucs2 ucs4 q f > 0 ->
-  (forall n' f', In (n', f') index -> (n', f') <> (n, f) -> score kur ucs2 ucs4 q f' < score kur ucs2 ucs4 q f) ->
-  find_table kur ucs2 ucs4 index' q = Some n.
+  In (n, f) index -> score kur ucs2 ucs4 islang q f > 0 ->
+  (forall n' f', In (n', f') index -> (n', f') <> (n, f) -> score kur ucs2 ucs4 islang q f' < score kur ucs2 ucs4 islang q f) ->
+  find_table kur ucs2 ucs4 islang index' q = Some n.
 Proof. exact MetaProofs.dominant_wins_l. Qed.
 Print Assumptions dominant_wins_any_order.
 
@@ -65,6 +165,61 @@ Theorem info_first_occurrence : forall l key v line,
 Proof. exact MetaProofs.info_first_l. Qed.
 Print Assumptions info_first_occurrence.
 
+(* ---------- the hypotheses are satisfiable ---------- *)
+
+(* key 5 = language, key 6 = region; subtags 100 = en, 101 = US, 102 = Latn, 110 = fr *)
+Definition ex_islang (k : N) : bool := (k =? 5)%N || (k =? 6)%N.
+
 Example dominance_is_satisfiable :
-  find_table 9%N 1%N 2%N [(1%N, [(3%N, 5%N)]); (2%N, [(3%N, 6%N)])] [(3%N, 6%N)] = Some 2%N.
+  find_table 9%N 1%N 2%N ex_islang [(1%N, [(3%N, [5%N])]); (2%N, [(3%N, [6%N])])] [(3%N, [6%N])] = Some 2%N.
 Proof. reflexivity. Qed.
+
+(* lang_single_feature_order with r = en, e = -US, d = fr, k' = 7 *)
+Example lang_order_is_satisfiable :
+  ex_islang 5%N = true /\ no_wild_head [100%N] = true /\ no_wild_head [110%N] = true /\
+  hd 0%N [110%N] <> hd 0%N [100%N] /\ [101%N] <> [] /\ (length [101%N] <= 4)%nat /\ 5%N <> 7%N /\
+  score 9%N 1%N 2%N ex_islang [(5%N, [100%N; 101%N])] [(5%N, [100%N; 101%N])] = 10 /\
+  score 9%N 1%N 2%N ex_islang [(5%N, [100%N; 101%N])] [(5%N, [100%N])] = 8 /\
+  score 9%N 1%N 2%N ex_islang [(5%N, [100%N; 101%N])] [] = -20 /\
+  score 9%N 1%N 2%N ex_islang [(5%N, [100%N; 101%N])] [(5%N, [110%N])] = -100.
+Proof. repeat split; try reflexivity; try discriminate. cbn [length]. auto with arith. Qed.
+
+(* lang_more_specific_query_still_matches: query en-Latn-US, table en-US *)
+Example lang_more_specific_is_satisfiable :
+  is_wild 100%N = false /\ subseq [101%N] [102%N; 101%N] = true /\
+  forallb (fun x => negb (single x)) [102%N; 101%N] = true /\
+  score 9%N 1%N 2%N ex_islang [(5%N, [100%N; 102%N; 101%N])] [(5%N, [100%N; 101%N])] = 8 /\
+  find_table 9%N 1%N 2%N ex_islang [(1%N, [(5%N, [100%N; 101%N])])] [(5%N, [100%N; 102%N; 101%N])] = Some 1%N /\
+  (* a one-character subtag in the way stops the match: query en-x-US *)
+  score 9%N 1%N 2%N ex_islang [(5%N, [100%N; 33%N; 101%N])] [(5%N, [100%N; 101%N])] = -100 /\
+  (* query en, table en-US *)
+  score 9%N 1%N 2%N ex_islang [(5%N, [100%N])] [(5%N, [100%N; 101%N])] = -100.
+Proof. repeat split; reflexivity. Qed.
+
+(* lang_extra_languages_penalty: en among 8, then 9, other languages *)
+Example lang_extra_languages_is_satisfiable :
+  (forall v, In v (repeat [110%N] 4) -> match_tags [100%N] v = 0) /\
+  score 9%N 1%N 2%N ex_islang [(5%N, [100%N])]
+    (map (pair 5%N) (repeat [110%N] 4 ++ [100%N] :: repeat [110%N] 4)) = 10 /\
+  score 9%N 1%N 2%N ex_islang [(5%N, [100%N])]
+    (map (pair 5%N) (repeat [110%N] 4 ++ [100%N] :: repeat [110%N] 5)) = 9.
+Proof.
+  split; [|split; reflexivity].
+  intros v H. apply repeat_spec in H. subst v. reflexivity.
+Qed.
+
+(* exact_metadata_score_bounds: the lower bound is reached by language:* *)
+Example exact_wildcard_scores_8 :
+  score 9%N 1%N 2%N ex_islang [(5%N, [0%N])] [(5%N, [0%N])] = 8.
+Proof. reflexivity. Qed.
+
+(* the operators of the language branch of matchFeatureLists and the shape of matchLanguageTags, regenerated from the
+   source on every run (Gen/GMeta.v), are the ones the model above is written with *)
+Theorem source_language_operators_are_the_model :
+  lang_head_is_reference = true /\ lang_walk_is_reference = true /\ lang_branch_tests_every_entry = true /\
+  (forall q best, src_lang_keeps q best = ((q >? 0) && (q >? best))) /\
+  (forall q, src_lang_counts_extra q = (q =? 0)) /\
+  (forall best, src_lang_penalty_applies best = (best >? 0)) /\
+  (forall e, src_lang_penalty e = lang_penalty e).
+Proof. exact MetaProofs.source_language_operators_l. Qed.
+Print Assumptions source_language_operators_are_the_model.
